@@ -722,8 +722,9 @@ def ref_close():
 
 def lua_probe(k):
     """Unformatted, unique, parseable under every syntax; its formatting depends on indentation,
-    quotes, call parentheses and (below ~60 columns) on the column width."""
-    return (f"local   v{k}  =  {{ a=1,b  = 2, name = 'n{k}' }}\n"
+    quotes, call parentheses, require sorting and (below ~60 columns) on the column width."""
+    return (f"local zz{k} = require('zz')\nlocal aa{k} = require('aa')\n"  # out of order: shows sort_requires
+            f"local   v{k}  =  {{ a=1,b  = 2, name = 'n{k}' }}\n"
             f"if v{k}   then\n"
             f"        print( 'x{k}' )\n"
             f"    for i=1,2 do\n"
